@@ -387,7 +387,9 @@ def set_default_doc(param, emit_default_doc=True):
                     else "{doc}.".format(doc=_param["doc"])
                 ),
                 default=(
-                    quote(_param["default"])
+                    "None"  # not the internal code-quoted spelling, which does not read back as None
+                    if _param["default"] is not None and _param["default"] in none_types
+                    else quote(_param["default"])
                     if (
                         needs_quoting(_param.get("typ"))
                         and (
